@@ -31,6 +31,9 @@ import (
 type Effect struct {
 	Label   string
 	Consume bool // the action consumes the handler's input
+	// ConsumesPeeked: counts as consuming the peeked input for the
+	// success-consumes rule (e.g. a pop of the queue the input came from).
+	ConsumesPeeked bool
 	Match   func(n *core.Node) bool
 }
 
@@ -130,6 +133,7 @@ func RunProto(c *core.Ctx, cfg *ProtoCfg) protoResult {
 	pkg := c.SSAPkg(cfg.Pkg)
 	stUn := c.Rule(cfg.RuleBase+".unchecked", "the error result of every sim.Port.Send is tested (or the call is dominated by CanSend()==true on the same port)", 0)
 	stFail := c.Rule(cfg.RuleBase+".commit-on-failure", "no commit action (consume input, table/queue update, counter) is reachable in the same iteration on a path where Send returned an error", 0)
+	stCons := c.Rule(cfg.RuleBase+".success-consumes", "when a handler peeked an input and its Send succeeded, every path to the handler's return consumes that input (else it is handled twice)", 0)
 	stPre := c.Rule(cfg.RuleBase+".consume-before-send", "no input-consuming action precedes, in the same iteration, a Send that can fail", 0)
 
 	direct := map[*ssa.Function]bool{} // has direct send or effect
@@ -139,7 +143,7 @@ func RunProto(c *core.Ctx, cfg *ProtoCfg) protoResult {
 		for _, b := range fn.Blocks {
 			for _, in := range b.Instrs {
 				n := &core.Node{Instr: in, Block: b, Frame: &core.Frame{Fn: fn}}
-				if isSend(n) {
+				if isSend(n) || isPeek(n) {
 					direct[fn] = true
 				} else if _, ok := cfg.effectOf(n); ok {
 					direct[fn] = true
@@ -252,6 +256,66 @@ func RunProto(c *core.Ctx, cfg *ProtoCfg) protoResult {
 				}
 			}
 		}
+		// success-consumes: a handler that peeked its input at port P and sent
+		// successfully must consume that input before returning, otherwise the
+		// same input is handled again (duplicate output)
+		for _, k := range g.NodesWhere(isPeek) {
+			if k.Frame.Parent != nil && false {
+				continue
+			}
+			inPort := portOfCall(k.Instr)
+			afterPeek, _ := g.Reach(core.After(k, nil), core.WalkOpts{ForwardOnly: true})
+			var retrievesOnIn []*core.Node
+			for _, r := range g.NodesWhere(isRetrieve) {
+				if portOfCall(r.Instr) == inPort && afterPeek[r] {
+					retrievesOnIn = append(retrievesOnIn, r)
+				}
+			}
+			for _, s := range sends {
+				if !afterPeek[s] {
+					continue
+				}
+				// already consumed before the Send: that shape is judged by consume-before-send
+				pre := false
+				for _, r := range retrievesOnIn {
+					ar, _ := g.Reach(core.After(r, nil), core.WalkOpts{ForwardOnly: true})
+					if ar[s] {
+						pre = true
+					}
+				}
+				if pre {
+					continue
+				}
+				if _, ex := cfg.Exempt[core.FuncName(s.Fn())+":success-consumes"]; ex {
+					continue
+				}
+				stCons.Instances++
+				sv := s.Instr.(ssa.Value)
+				leak := false
+				g.Walk(core.After(s, core.FactFor(s, sv, -1)), core.WalkOpts{ForwardOnly: true,
+					Stop: func(n *core.Node) bool {
+						if isRetrieve(n) && portOfCall(n.Instr) == inPort {
+							return true
+						}
+						if e, ok := cfg.effectOf(n); ok && e.ConsumesPeeked {
+							return true
+						}
+						return false
+					}}, func(st core.State) {
+					if _, ok := st.N.Instr.(*ssa.Return); ok && st.N.Frame.Parent == nil {
+						leak = true
+					}
+				})
+				stCons.Ob(!leak)
+				if leak {
+					c.ReportAt(cfg.RuleBase+".success-consumes", s.Fn(), s.Instr.Pos(),
+						fmt.Sprintf("Send:%s without consuming %s", portOfCall(s.Instr), inPort),
+						fmt.Sprintf("after a successful Send on %s a path returns without consuming the input peeked at %s: the same input is handled again and the output duplicated [scope %s]", portOfCall(s.Instr), inPort, core.FuncName(fn)))
+				} else {
+					stCons.Sample("%s: success of Send:%s always consumes input of %s", core.FuncName(fn), portOfCall(s.Instr), inPort)
+				}
+			}
+		}
 		// consume-before-send
 		for _, e := range effects {
 			eff, _ := cfg.effectOf(e)
@@ -312,6 +376,39 @@ func DebugProto(c *core.Ctx, pkgs []string) {
 		sort.Slice(fs, func(i, j int) bool { return fs[i].Pos < fs[j].Pos })
 		for _, f := range fs {
 			fmt.Printf("   %s %s %s [%s] %s\n", strings.TrimPrefix(f.Rule, "DBG."), f.Pos, f.Func, f.Detail, f.Msg)
+		}
+	}
+}
+
+// DebugProv prints builder chains, Send arguments and field stores with their
+// provenance (development aid).
+func DebugProv(c *core.Ctx, pkgs []string) {
+	prov := core.NewProv(c)
+	for _, rel := range pkgs {
+		p := NewPkgInfo(c, rel)
+		for _, fn := range p.Funcs {
+			for _, bc := range core.BuilderChains(fn) {
+				fmt.Printf("%s: %s\n", core.FuncName(fn), bc.Builder)
+				for _, s := range bc.Order {
+					if len(bc.Setters[s]) > 0 {
+						fmt.Printf("     .%s(%s)\n", s, prov.Of(bc.Setters[s][0]))
+					} else {
+						fmt.Printf("     .%s()\n", s)
+					}
+				}
+			}
+			for _, b := range fn.Blocks {
+				for _, in := range b.Instrs {
+					if core.IsPortMethod(in, "Send") {
+						fmt.Printf("%s: %s.Send(%s)\n", core.FuncName(fn), portOfCall(in), prov.Of(core.CallOf(in).Args[0]))
+					}
+					if st, ok := in.(*ssa.Store); ok {
+						if f := core.FieldOfAddr(st.Addr); f != nil {
+							fmt.Printf("%s: store %s := %s   [base %s]\n", core.FuncName(fn), core.ShortFieldID(f), prov.Of(st.Val), prov.Of(st.Addr.(*ssa.FieldAddr).X))
+						}
+					}
+				}
+			}
 		}
 	}
 }
